@@ -165,6 +165,13 @@ void Interp::abnormalExit(const Guard &g, const std::string &why, const Instruct
 AV Interp::piece(const AV &v, int lo, int len) {
   if (lo == 0 && len == v.bytes) return v;
   if (v.k == AV::INT) {
+    if (lo >= 8) return AV::Int(v.i < 0 ? -1 : 0, len > 8 ? 8 : len).bytes == len ? AV::Int(v.i < 0 ? -1 : 0, len) : AV::Int(v.i < 0 ? -1 : 0, len);
+    if (len > 8 - lo && len + lo > 8) { // spans beyond the 64 stored bits: sign fill
+      std::vector<std::pair<AV, std::pair<int, int>>> ps; ps.push_back({AV::Int(v.i, 8), {lo, 8 - lo}}); ps.push_back({AV::Int(v.i < 0 ? -1 : 0, len - (8 - lo)), {0, len - (8 - lo)}});
+      if (len <= 8) return assemble(ps, len, false);
+      std::vector<int> ids; ids.push_back(termOf(piece(AV::Int(v.i, 8), lo, 8 - lo))); int rest = len - (8 - lo); while (rest > 0) { int w = rest > 8 ? 8 : rest; ids.push_back(TT.cint(v.i < 0 ? -1 : 0, w)); rest -= w; }
+      return AV::Tm(TT.mk(TT.OP_CONCAT, ids, 0, len), len);
+    }
     uint64_t x = (uint64_t)v.i >> (8 * lo);
     if (len < 8) x &= ((1ULL << (8 * len)) - 1);
     int64_t sx = (int64_t)x;
@@ -310,7 +317,14 @@ void Interp::leafLayout(Type *T, int64_t base, std::vector<std::pair<Type *, int
 AV Interp::constScalar(const Constant *C) {
   Type *T = C->getType();
   int by = T->isPointerTy() ? 8 : (int)((T->getPrimitiveSizeInBits() + 7) / 8);
-  if (auto *CI = dyn_cast<ConstantInt>(C)) { if (CI->getBitWidth() > 64) { err("integer constant wider than 64 bits"); return AV::Top(by); } return AV::Int(CI->getSExtValue(), by ? by : 1); }
+  if (auto *CI = dyn_cast<ConstantInt>(C)) {
+    if (CI->getBitWidth() > 64) {
+      if (CI->getValue().getMinSignedBits() <= 64) return AV::Int(CI->getValue().getSExtValue(), by);
+      std::vector<int> ids; for (unsigned w = 0; w < CI->getBitWidth(); w += 64) { unsigned nb = std::min(64u, CI->getBitWidth() - w); ids.push_back(TT.cint((int64_t)CI->getValue().extractBitsAsZExtValue(nb, w), (int)(nb / 8))); }
+      return AV::Tm(TT.mk(TT.OP_CONCAT, ids, 0, by), by);
+    }
+    return AV::Int(CI->getSExtValue(), by ? by : 1);
+  }
   if (auto *CF = dyn_cast<ConstantFP>(C)) {
     if (T->isFloatTy()) { float f = CF->getValueAPF().convertToFloat(); if (std::isnan(f)) { uint32_t u; memcpy(&u, &f, 4); return AV::Tm(TT.mk("nanbits", {}, (int32_t)u, 4), 4, true); } return cfpAV(f, 4); }
     if (T->isDoubleTy()) { double d = CF->getValueAPF().convertToDouble(); if (std::isnan(d)) { int64_t u; memcpy(&u, &d, 8); return AV::Tm(TT.mk("nanbits", {}, u, 8), 8, true); } return cfpAV(d, 8); }
@@ -376,6 +390,7 @@ static inline uint64_t maskBits(int bits) { return bits >= 64 ? ~0ULL : ((1ULL <
 static inline int64_t sextBits(uint64_t x, int bits) { return bits >= 64 ? (int64_t)x : (int64_t)(x << (64 - bits)) >> (64 - bits); }
 AV Interp::binop(unsigned opc, const AV &a, const AV &b, int bits) {
   int by = (bits + 7) / 8; if (!by) by = 1;
+  if (a.k == AV::INT && b.k == AV::INT && bits > 64) { err("constant arithmetic wider than 64 bits"); return AV::Top(by); }
   if (a.k == AV::INT && b.k == AV::INT) {
     int64_t x = a.i, y = b.i, r = 0; uint64_t ux = (uint64_t)x & maskBits(bits), uy = (uint64_t)y & maskBits(bits);
     switch (opc) {
@@ -441,10 +456,11 @@ AV Interp::binop(unsigned opc, const AV &a, const AV &b, int bits) {
     }
     if ((opc == Instruction::And || opc == Instruction::Or) && (a.k == AV::INT || b.k == AV::INT) && bits % 8 == 0 && by > 1) {
       const AV &c = a.k == AV::INT ? a : b; const AV &v = a.k == AV::INT ? b : a; bool ok = true;
-      for (int i = 0; i < by; i++) { int bv = (int)(((uint64_t)c.i >> (8 * i)) & 0xFF); if (bv != 0 && bv != 0xFF) ok = false; }
+      auto byteOf = [&](int64_t x, int i) { return i >= 8 ? (x < 0 ? 0xFF : 0) : (int)(((uint64_t)x >> (8 * i)) & 0xFF); };
+      for (int i = 0; i < by; i++) { int bv = byteOf(c.i, i); if (bv != 0 && bv != 0xFF) ok = false; }
       if (ok) {
         std::vector<std::pair<AV, std::pair<int, int>>> ps;
-        for (int i = 0; i < by; i++) { int bv = (int)(((uint64_t)c.i >> (8 * i)) & 0xFF); bool keep = (opc == Instruction::And) ? bv == 0xFF : bv == 0; if (keep) ps.push_back({v, {i, 1}}); else ps.push_back({AV::Int(opc == Instruction::And ? 0 : -1, 1), {0, 1}}); }
+        for (int i = 0; i < by; i++) { int bv = byteOf(c.i, i); bool keep = (opc == Instruction::And) ? bv == 0xFF : bv == 0; if (keep) ps.push_back({v, {i, 1}}); else ps.push_back({AV::Int(opc == Instruction::And ? 0 : -1, 1), {0, 1}}); }
         // merge adjacent keeps
         std::vector<std::pair<AV, std::pair<int, int>>> ms;
         for (auto &p : ps) { if (!ms.empty() && ms.back().first == p.first && p.first.k != AV::INT && ms.back().second.first + ms.back().second.second == p.second.first) ms.back().second.second++; else ms.push_back(p); }
@@ -544,6 +560,7 @@ AV Interp::castv(CastInst *C, const AV &v) {
     if (dbits == 1) return AV::Tm(TT.mk(TT.OP_TRUNC1, {termOf(v)}, 0, 1), 1);
     if (dbits % 8 == 0) return piece(v, 0, db);
   }
+  if (isa<ZExtInst>(C) && v.k == AV::T && db > 8 && sb % 8 == 0) { std::vector<std::pair<AV, std::pair<int, int>>> ps; ps.push_back({v, {0, sb / 8}}); int rest = db - sb / 8; while (rest > 0) { int w = rest > 8 ? 8 : rest; ps.push_back({AV::Int(0, w), {0, w}}); rest -= w; } return assemble(ps, db, false); }
   if ((isa<ZExtInst>(C) || isa<SExtInst>(C)) && v.k == AV::T) return AV::Tm(TT.mk(isa<ZExtInst>(C) ? TT.OP_ZEXT : TT.OP_SEXT, {v.t}, sb, db), db);
   return AV::Tm(TT.mk(C->getOpcodeName(), {termOf(v)}, sb, db), db, dfp);
 }
